@@ -491,6 +491,10 @@ def classify_history(tr: dict, reached: int) -> tuple[dict, str]:
         if times and got == max(times) and _secs(got) < max(_secs(t) for t in times):
             sig.update(field="time", observed="string_max")
             return sig, f"combine_max time = {got!r} for operands {times}: not the longest duration"
+        if times and got in times and _secs(got) < max(_secs(t) for t in times):
+            sig.update(field="time", observed="shorter_than_an_operand",
+                       mixed_formats=len({t.count(":") for t in times}) > 1)
+            return sig, f"combine_max time = {got!r} for operands {times}: not the longest duration"
     sig.update(field="?", observed="other")
     return sig, f"{e['op']} produced {new}, not an allowed result"
 
@@ -588,7 +592,7 @@ INVARIANT {invs}
 {props}
 """
 INVS = {"ctor": "LawScope Emit", "dict": "LawScope LawRoundTrip Emit",
-        "cmax": "LawScope LawCombineMaxGE LawCombineMaxTight LawCombineMaxOrderFree Emit",
+        "cmax": "LawScope LawCombineMaxGE LawCombineMaxTight LawCombineMaxOrderFree LawTimeFormatFree Emit",
         "defaults": "LawScope LawWithDefaults Emit", "update": "LawScope LawUpdateNew Emit",
         "hist": "LawScope Emit"}
 
@@ -782,6 +786,7 @@ def plan(quick: bool) -> list[dict]:
         cmax("ints", 1, 3, 1)
         cmax("mixed2", 1, 2, 1, keep=True)
         cmax("time", 1, 3, 1, keep=True)
+        cmax("timex", 1, 2, 2, keep=True)  # mixed formats around the day boundaries
         cmax("mem", 1, 2, 1, keep=True)
         nd = 1
     else:
@@ -790,6 +795,7 @@ def plan(quick: bool) -> list[dict]:
         cmax("mem18", 4, 4, 19)
         cmax("mem", 1, 3, 12, keep=True)
         cmax("time", 1, 4, 13, keep=True)
+        cmax("timex", 1, 3, 23, keep=True)
         cmax("mixed", 1, 3, 4, keep=True)
         cmax("mixed2", 1, 2, 2, keep=True)
         nd = 6
@@ -810,7 +816,9 @@ def random_history(rng: random.Random, starts: list, n: int) -> tuple[list, list
     alive = len(start)
     ops = []
     mems = [tok_mem(s) for s in ("1GB", "1000MB", "1.5TB", "512KB", "2PB", "10B")]
-    times = [tok_time(s) for s in ("30:00", "2:00:00", "10:00:00", "02:00:00", "1:00:00:00", "9:59:59")]
+    # the four formats, incl. hour forms beyond one day next to day forms (the order depends on 1 day = 24 h)
+    times = [tok_time(s) for s in ("30:00", "2:00:00", "10:00:00", "02:00:00", "1:00:00:00", "9:59:59",
+                                   "30:00:00", "1:12:00:00", "48:00:00", "2:00:00:00", "25:00:00", "59:59:59")]
     for _ in range(n):
         x = rng.random()
         if x < 0.5:
@@ -855,7 +863,8 @@ def run(ctx: Ctx) -> None:
         "ctor (constructor arguments incl. invalid integers, exclusion violations, malformed memory/time strings), "
         "dict (dict/from_dict/to_slurm_options of every valid record), cmax (every operand list of length 1..3, "
         "thorough 4 for mem/time, over the pools ints / mem {B..PB}x{1,1.5,2,10,512,1000} / time (12 strings in the 4 formats) / "
-        "mixed), defaults (receiver x defaults), update (receiver x kwargs), hist (every combinator call sequence "
+        "timex (67 strings: hour forms 0..99 h against day forms 0..3 days around every day boundary, lists of 1..2, "
+        "thorough 3) / mixed), defaults (receiver x defaults), update (receiver x kwargs), hist (every combinator call sequence "
         "of length Depth, plus seeded random longer ones); non-trivial = ctor: some argument set; cmax: two "
         "operands set the same quantity differently; defaults: some quantity set on both sides and some only on "
         "the defaults; update: at least one keyword; hist: every sequence")
@@ -875,8 +884,8 @@ def run(ctx: Ctx) -> None:
     jobs.append({"mode": "hist", "depth": 2, "thorough": not quick, "shard": 0, "nshards": 1, "workers": 2,
                  "seed": ctx.seed, "tlc_fraction": (1, 1)})
     if not quick:
-        jobs[:0] = [{"mode": "hist", "depth": 3, "thorough": True, "shard": sh, "nshards": 4, "workers": 2,
-                     "seed": ctx.seed, "tlc_fraction": (1, 10)} for sh in range(4)]
+        jobs[:0] = [{"mode": "hist", "depth": 3, "thorough": True, "shard": sh, "nshards": 5, "workers": 2,
+                     "seed": ctx.seed, "tlc_fraction": (1, 10)} for sh in range(5)]  # one start configuration each
     import time as _t
     t0 = _t.time()
     phases: dict[str, float] = {}
